@@ -151,7 +151,9 @@ class BackwardsCompatEbuildRepositoryProfile(EbuildRepositoryProfile):
                 return 'EBUILD'
             elif spl[2] == 'metadata.xml':
                 return 'MISC'
-        if spl[2:3] == ['files']:
+        # files inside <category>/<package>/files/ (but not a file
+        # that is itself called 'files')
+        if spl[2:3] == ['files'] and len(spl) > 3:
             return 'AUX'
 
         return (super().get_entry_type_for_path(path))
